@@ -29,6 +29,7 @@ type rcase struct {
 	Level  int      `json:",omitempty"` // 0..3 = L M Q H
 	Mask   int      `json:",omitempty"`
 	Twin   bool     `json:",omitempty"` // QR symbol with near-identical data blocks (twinText)
+	Pad    []int    `json:",omitempty"` // QR symbol of padText(v, level, Pad[0], Pad[1])
 	DM     int      `json:",omitempty"` // index into the 30 sizes (ascending capacity)
 	Key    string   // violation key template (%s = optional size class)
 	Expect string   // "exact" | "not-different" | "info"
@@ -68,6 +69,7 @@ func main() {
 	runFull()
 	runOver()
 	runTwinBlocks()
+	runPadMimic()
 	runSelfTest()
 	runFormat()
 	runVersion()
@@ -165,7 +167,7 @@ func classCount(syms ...[]*symbol) map[string]int {
 // one case
 
 func (s *symbol) rcase(key, expect string, f *fault) rcase {
-	rc := rcase{Symbol: s.name(), Kind: s.Kind, V: s.V, Level: s.L, Mask: s.Mask, Twin: s.Twin, DM: s.DMi, Key: key, Expect: expect,
+	rc := rcase{Symbol: s.name(), Kind: s.Kind, V: s.V, Level: s.L, Mask: s.Mask, Twin: s.Twin, Pad: s.pad, DM: s.DMi, Key: key, Expect: expect,
 		CW: f.CW, XOR: f.XOR, Flips: f.Flips}
 	var sb strings.Builder
 	for i, p := range f.CW {
